@@ -345,8 +345,8 @@ type c25Flush struct {
 
 type c25Stall struct{ Msg, HoldMS int }
 
-// c25FlushDeterministic: the counters that are a function of shards and
-// query only (the others are wall-clock times).
+// c25FlushTimed: wall-clock counters; all the others are a function of shards
+// and query only and must come out the same with and without a flush window.
 var c25FlushTimed = map[string]bool{"Wait": true, "MatchTreeConstruction": true, "MatchTreeSearch": true}
 
 type c25FMsg struct {
@@ -414,15 +414,14 @@ func (s *c25SlowStream) Send(m *webserverv1.StreamSearchResponse) error {
 	hold := s.stalls[fileIdx]
 	s.mu.Unlock()
 
-	b, err := proto.Marshal(m)
-	if err != nil {
+	// serialise, as the transport would
+	if _, err := proto.Marshal(m); err != nil {
 		s.mu.Lock()
 		s.failf("send-error", "message %d is not serialisable: %v", idx, err)
 		s.inflight--
 		s.mu.Unlock()
 		return err
 	}
-	_ = b
 	msg := c25FMsg{hasStats: chunk.GetStats() != nil, stats: zoekt.StatsFromProto(chunk.GetStats()), stalled: fileIdx >= 0 && hold > 0}
 	for _, f := range chunk.GetFiles() {
 		msg.files = append(msg.files, f.GetRepository()+"/"+string(f.GetFileName()))
@@ -591,9 +590,7 @@ func c25GetCorpus(f *c25Flush) (*c25Corpus, error) {
 			return nil, err
 		}
 	}
-	tds := time.Now()
 	ss, err := search.NewDirectorySearcher(dir)
-	c25DbgDS += time.Since(tds)
 	if err != nil {
 		os.RemoveAll(dir)
 		return nil, err
@@ -641,9 +638,9 @@ func c25Serve(c *c25Corpus, q query.Q, opts *zoekt.SearchOptions, stalls []c25St
 		return nil, stream.fail
 	}
 	o := &c25Observed{stats: map[string]int64{}, msgs: len(stream.msgs)}
-	cur := -1           // index of the open file-carrying event
-	curMarked := false  // the open event (file-carrying or not) is a marked one
-	filesBefore := 0    // file-carrying messages seen so far
+	cur := -1          // index of the open file-carrying event
+	curMarked := false // the open event (file-carrying or not) is a marked one
+	filesBefore := 0   // file-carrying messages seen so far
 	for i, m := range stream.msgs {
 		if len(m.files) > 1 && m.total >= c25Budget {
 			return nil, kit.Fail("budget", "message %d carries %d files with %d bytes in total (budget %d); only a single oversized file may exceed it", i, len(m.files), m.total, c25Budget)
@@ -681,22 +678,17 @@ func c25Serve(c *c25Corpus, q query.Q, opts *zoekt.SearchOptions, stalls []c25St
 	return o, nil
 }
 
-var c25DbgBuild, c25DbgRun, c25DbgDS time.Duration
-
 type c25FlushFacts struct {
 	timerMid, timerEnd, finalOnly, timerEarly, passThrough bool
-	stalledAgg, multiChunk                                bool
-	files, msgs                                           int
+	stalledAgg, multiChunk                                 bool
+	files, msgs                                            int
 }
 
 func runC25Flush(f *c25Flush) (facts c25FlushFacts, err error) {
-	tb := time.Now()
 	c, err := c25GetCorpus(f)
 	if err != nil {
 		return facts, fmt.Errorf("building the shards: %v", err)
 	}
-	c25DbgBuild += time.Since(tb)
-	defer func(t time.Time) { c25DbgRun += time.Since(t) }(time.Now())
 	q, err := f.query()
 	if err != nil {
 		return facts, err
@@ -842,6 +834,9 @@ func c25GenFlush(rt *rapid.T) *c25Flush {
 	lay := c25Pick(rt, c25Layouts, "layout")
 	f.Shards, f.Docs, f.DocKB = lay[0], lay[1], lay[2]
 	f.Whole = c25U(rt, 3, "whole") == 0
+	if f.DocKB >= 200 && c25U(rt, 2, "wholebig") == 0 {
+		f.Whole = true
+	}
 	f.Chunks = c25U(rt, 3, "chunks") == 0
 	f.Regex = c25U(rt, 3, "regex") == 0
 	switch c25U(rt, 10, "timer") {
@@ -1000,12 +995,9 @@ func c25GenCase(rt *rapid.T) c25Case {
 }
 
 // c25FlushPercent of the cases are end-to-end flush cases.
-const c25FlushPercent = 10
-
-var c25DbgT0 time.Time
+const c25FlushPercent = 8
 
 func c25FlushCase(rec *kit.Recorder, c c25Case) error {
-	c25DbgT0 = time.Now()
 	facts, err := runC25Flush(c.Flush)
 	var labels []string
 	add := func(b bool, l string) {
@@ -1025,11 +1017,6 @@ func c25FlushCase(rec *kit.Recorder, c c25Case) error {
 	nt := facts.timerMid && facts.stalledAgg
 	b, _ := json.Marshal(c)
 	rec.Eval(string(b), nt, labels...)
-	rec.Set("dbg_build_ms", c25DbgBuild.Milliseconds())
-	rec.Set("dbg_ds_ms", c25DbgDS.Milliseconds())
-	rec.Add(fmt.Sprintf("dbg_us_layout_%d_%d", c.Flush.Shards, c.Flush.DocKB), int(time.Since(c25DbgT0).Microseconds()))
-	rec.Add(fmt.Sprintf("dbg_n_layout_%d_%d", c.Flush.Shards, c.Flush.DocKB), 1)
-	rec.Set("dbg_run_ms", c25DbgRun.Milliseconds())
 	rec.Add("flush_files_delivered", facts.files)
 	rec.Add("flush_messages_received", facts.msgs)
 	rec.Sample(c, nt)
@@ -1039,10 +1026,11 @@ func c25FlushCase(rec *kit.Recorder, c c25Case) error {
 func TestVerif_C25(t *testing.T) {
 	t.Cleanup(c25CloseAll)
 	rec := kit.Open(t, "C25",
-		"rapid-generated sequences of 1-14 event groups pushed through newSamplingSender -> gRPCChunkSender -> a fake stream that marshals and unmarshals every message at Send, then sampler.Flush(): stats-only events (all-zero, one counter, several, all counters) repeated 1-350 times, and events with 1-60 files of 1 B - 2 MiB (many sizes at 1/3, 1/2 and 1x the 1 MiB chunk budget +- a few bytes). Non-trivial: the sequence has both stats-only and file events and the stream produced >= 2 messages. Distinct by hash of the JSON case",
+		"two kinds of rapid-generated cases. (a) 92%: sequences of 1-14 event groups pushed through newSamplingSender -> gRPCChunkSender -> a fake stream that marshals and unmarshals every message at Send, then sampler.Flush(): stats-only events (all-zero, one counter, several, all counters) repeated 1-350 times, and events with 1-60 files of 1 B - 2 MiB (many sizes at 1/3, 1/2 and 1x the 1 MiB chunk budget +- a few bytes). Non-trivial: the sequence has both stats-only and file events and the stream produced >= 2 messages. (b) 8% 'flush cases', end to end: Server.StreamSearch over search.NewDirectorySearcher on 2-8 real simple shards of different cost (1-3 matching documents each, 6-350 KiB; substring or regexp query; Whole / ChunkMatches options), with SearchOptions.FlushWallTime placed at 5-85% (sometimes 100-200%, sometimes 0 = no window) of the wall time the same search has just taken, so that the flush timer expires while shards are still producing, and a slow client: Send on the fake stream blocks under the harness's control on chosen file-carrying messages (the first one = the flushed aggregate, and/or a later one) for up to 2-25 ms or until the handler returns or another Send shows up. Non-trivial flush case: the timer expired in mid-search (results followed the aggregate) and the aggregate's delivery was stalled. Distinct by hash of the JSON case",
 		"counters are non-negative (Stats.Zero and the sampler test them with > 0); the search succeeded, so Flush is called as Server.StreamSearch does",
 		"Stats.Duration and Stats.FlushReason are excluded from conservation: Stats.Add leaves Duration out and keeps the first non-zero FlushReason; every other field of zoekt.Stats (enumerated by reflection) must be conserved",
 		"budget: sum of proto.Size over the files of one message < 1 MiB (grpc/chunk.maxMessageSize) unless the message carries a single file",
+		"flush cases: a message counts as delivered when Send returns. Oracle, valid for every schedule: no Send begins while another is in progress, none begins or is still in progress when the handler has returned; every matching document is delivered exactly once; at most one event carries a FlushReason and no file precedes it; that event is a union of whole shard results, every other file event is exactly one shard's result in the order the shard produced it (taken from the same search without a flush window); the per-message budget; every counter of zoekt.Stats except the wall-clock ones (Duration, Wait, MatchTreeConstruction, MatchTreeSearch) sums to the same value as without a flush window. No display or match limits (all files are expected). Where the timer falls relative to the shard results depends on the wall clock: it only decides which labelled class a case lands in, never the verdict",
 	)
 	rec.Set("stats_fields_checked", c25Additive)
 	kit.Property(t, rec, c25GenCase, func(c c25Case) error {
